@@ -8,7 +8,7 @@ out=f"/tmp/seed_out/{pid}" if rnd=="1" else f"/tmp/seed_out{rnd}/{pid}"
 wt=wt if rnd=="1" else f"/tmp/wt{rnd}_{pid}"
 STYLE3 = """
   STYLE FOR THIS ROUND - go for changes that are hard to spot by reading the diff: (i) boundary and degenerate cases (empty list, single element, exactly-equal values, zero, negative, NaN, duplicates, an object that is simultaneously X and Y); (ii) ORDER and ALIASING effects (iteration order, which of two equal candidates wins, a list shared between two consumers, shallow vs deep copy, a default argument evaluated once, state left over from a previous call); (iii) a wrong unit / index / axis / sign / off-by-one in ONE of several symmetric places (x done right, y done wrong; first stage right, second wrong; 2D right, 3D wrong); (iv) an exception path or an early exit that skips bookkeeping; (v) the interplay of TWO correct-looking functions in different files. Make sure the three changes break three DIFFERENT clauses of the STATEMENT. Avoid these already over-used kinds: caching/memoising with an incomplete key, testing a possibly-zero value by truthiness, using the estimate's label instead of the ground truth's for a threshold lookup, dropping a `transforms` argument, flipping a single comparison operator."""
-STYLE = "" if rnd == "1" else STYLE3 if rnd == "3" else """
+STYLE = "" if rnd == "1" else STYLE3 if rnd in ("3", "4") else """
   STYLE FOR THIS ROUND - prefer changes of these kinds: (i) a change spread over two sites or two files that each look fine alone; (ii) a change in a helper, property, data structure, default value or constructor that the relevant code relies on (not in the most obvious function itself); (iii) a refactor that keeps the code looking natural - hoisting, caching/memoising, early return, generalising or merging conditions, a changed default argument, a mutable default, in-place instead of copy (or the reverse), changed iteration order, reuse of a loop variable after the loop, `or`-defaulting of a value that may legitimately be 0/empty, shadowed names - but alters behaviour; (iv) a clause of the property that is easy to overlook (read the STATEMENT sentence by sentence and make sure the three changes break three DIFFERENT clauses). Avoid the most obvious mutations (flipping one comparison operator, swapping which object's label is used for a threshold lookup, deleting a transforms= argument)."""
 print(f"""You are helping to test a verification tool by writing realistic *faulty* changes to a Python library. Work ONLY inside the git worktree {wt} (a checkout of the library tier4/autoware_perception_evaluation, package under {wt}/perception_eval/perception_eval) and write your deliverables under {out}/ . Do not read or touch /repo or /verif, and do not look for any verification tooling: your changes must be independent of it.
 
@@ -34,5 +34,6 @@ How to work:
   - Existing tests: cd {wt} && PYTHONPATH={wt}/perception_eval /venv/bin/python -m pytest -q -p no:cacheprovider --timeout=900 -n 6   (about 1-2 minutes; 110 tests must pass). Tests live in {wt}/perception_eval/test; test helpers (e.g. test.util.dummy_object.make_dummy_data) may be handy for building objects in your demo (run demos from {wt} so that `import test.util...` style imports work, or build objects directly with the library's classes).
   - For each change: apply it, run the full suite (must pass), run demo.py (must fail), then `git checkout -- .` to undo (do NOT use `git stash`: the stash is shared between worktrees of the same repository and other people are working in sibling worktrees), run demo.py again (must pass). Save the diff BEFORE undoing. Leave the worktree clean (git status clean) at the end.
   - Keep each patch small (a few lines).
+  - demo.py must not contain the absolute path of the worktree: if it needs the sample dataset, derive the path from the imported package, e.g. os.path.join(os.path.dirname(os.path.dirname(perception_eval.__file__)), 'test', 'sample_data').
 When done, reply with a short summary per change (file/function touched, what manifests it) and confirm that for each one: suite passed with the change, demo failed with it, demo passed without it.
 """)
